@@ -51,7 +51,7 @@ func VerifC05_Abbrev() {
 	}
 	vPhase("run")
 	remaining, err := opt.Parse(args)
-	vObserve("err", err)
+	vObserve("failed", err != nil) // the text lists the candidates in sorted order, which the engine leaves unspecified
 	vObserve("remaining", remaining)
 	vObserve("o1", *o1)
 	vObserve("o2", *o2)
@@ -160,7 +160,7 @@ func VerifC05_Levels() {
 	o2 := cmd.String(n2, "d2")
 	vPhase("run")
 	remaining, err := opt.Parse([]string{"--" + p, v, "cmd", "--" + p, w})
-	vObserve("err", err)
+	vObserve("failed", err != nil)
 	vObserve("remaining", remaining)
 	vObserve("o1", *o1)
 	vObserve("o2", *o2)
